@@ -1061,7 +1061,15 @@ func c03Listen(c *core.Ctx, p c03Params) {
 		var once sync.Once
 		svc.SetOnServe(func(*res.Service) { once.Do(func() { close(served) }) })
 		ret := make(chan error, 1)
-		go func() { ret <- svc.ListenAndServe(ne.URL, nats.ReconnectWait(20*time.Millisecond)) }()
+		// every sixth cycle (one that follows a held closed handler) is served on a connection
+		// of another type than *nats.Conn: the left-over call belongs to that run even less
+		otherConn := cy%6 == 3
+		if otherConn {
+			what["served_on"] = "a res.Conn that is not a *nats.Conn"
+			go func() { ret <- svc.Serve(vconn.New()) }()
+		} else {
+			go func() { ret <- svc.ListenAndServe(ne.URL, nats.ReconnectWait(20*time.Millisecond)) }()
+		}
 		select {
 		case <-served:
 			if staleGate != nil {
